@@ -13,6 +13,7 @@ import (
 	"fmt"
 	"github.com/caddyserver/caddy/v2"
 	"net"
+	"os"
 	"strings"
 	"sync"
 	"sync/atomic"
@@ -45,20 +46,21 @@ func init() {
 		},
 		MinEvals: 1000,
 		Plan: func(tier string) []fw.ChildSpec {
-			poison := []string{"VERIF_POISON=1", "VERIF_YIELD=lw.pipe.send=0.2:200"}
+			caCert := makeCA()
+			poison := []string{"VERIF_POISON=1", "VERIF_YIELD=lw.pipe.send=0.2:200", "SSL_CERT_FILE=" + caCert, "SSL_CERT_DIR=/nonexistent-verif"}
 			if tier == "thorough" {
 				return []fw.ChildSpec{
 					{Name: "race-p2", Mode: "stress", Race: true, Shards: 1, Timeout: 40 * time.Minute, Env: append([]string{"GOMAXPROCS=2"}, poison...)},
 					{Name: "race-p4", Mode: "stress", Race: true, Shards: 1, Timeout: 40 * time.Minute, Env: append([]string{"GOMAXPROCS=4"}, poison...)},
 					{Name: "race-p16", Mode: "stress", Race: true, Shards: 2, Timeout: 40 * time.Minute, Env: append([]string{"GOMAXPROCS=16"}, poison...)},
-					{Name: "plain-p1", Mode: "stress", Shards: 2, Timeout: 40 * time.Minute, Env: []string{"GOMAXPROCS=1"}},
+					{Name: "plain-p1", Mode: "stress", Shards: 2, Timeout: 40 * time.Minute, Env: []string{"GOMAXPROCS=1", "SSL_CERT_FILE=" + caCert, "SSL_CERT_DIR=/nonexistent-verif"}},
 					{Name: "plain-p16", Mode: "stress", Shards: 2, Timeout: 40 * time.Minute, Env: append([]string{"GOMAXPROCS=16"}, poison...)},
 				}
 			}
 			return []fw.ChildSpec{
 				{Name: "race-p2", Mode: "stress", Race: true, Shards: 1, Timeout: 10 * time.Minute, Env: append([]string{"GOMAXPROCS=2"}, poison...)},
 				{Name: "race-p16", Mode: "stress", Race: true, Shards: 1, Timeout: 10 * time.Minute, Env: append([]string{"GOMAXPROCS=16"}, poison...)},
-				{Name: "plain-p1", Mode: "stress", Shards: 1, Timeout: 10 * time.Minute, Env: []string{"GOMAXPROCS=1"}},
+				{Name: "plain-p1", Mode: "stress", Shards: 1, Timeout: 10 * time.Minute, Env: []string{"GOMAXPROCS=1", "SSL_CERT_FILE=" + caCert, "SSL_CERT_DIR=/nonexistent-verif"}},
 				{Name: "plain-p16", Mode: "stress", Shards: 1, Timeout: 10 * time.Minute, Env: append([]string{"GOMAXPROCS=16"}, poison...)},
 			}
 		},
@@ -95,6 +97,22 @@ func (e *env) routes() string {
 				map[string]any{"handler": "tee", "branch": []any{map[string]any{"handler": "verif_sink", "name": "teeb", "bufsize": 700}}},
 				map[string]any{"handler": "throttle", "total_read_bytes_per_second": 1e9, "total_read_burst_size": 1 << 16, "read_bytes_per_second": 1e9, "read_burst_size": 1 << 15},
 				map[string]any{"handler": "verif_sink", "name": "rgx", "bufsize": 333}}},
+	}
+	// a route whose last handler is a subroute that nothing inside matches, followed by the route that takes the connection
+	rs = append(rs,
+		map[string]any{"match": []any{map[string]any{"regexp": map[string]any{"pattern": "^SUB", "count": 3}}},
+			"handle": []any{map[string]any{"handler": "subroute", "routes": []any{map[string]any{
+				"match":  []any{map[string]any{"regexp": map[string]any{"pattern": "^SUBX", "count": 4}}},
+				"handle": []any{map[string]any{"handler": "verif_sink", "name": "subx"}}}}}}},
+		map[string]any{"match": []any{map[string]any{"regexp": map[string]any{"pattern": "^SUB", "count": 3}}},
+			"handle": []any{map[string]any{"handler": "verif_sink", "name": "sub", "bufsize": 256}}})
+	if e.tlsUp != nil {
+		// TLS terminated, then relayed to a TLS upstream with the default client settings: they follow this
+		// connection's own ClientHello (server name, ALPN list), and nobody else's
+		rs = append([]any{map[string]any{
+			"match": []any{map[string]any{"tls": map[string]any{"sni": tlsDefNames}}},
+			"handle": []any{map[string]any{"handler": "tls"}, map[string]any{"handler": "verif_span", "name": "tlsdef"},
+				map[string]any{"handler": "proxy", "upstreams": []any{map[string]any{"dial": []string{e.tlsUp.Addr}, "tls": map[string]any{}}}}}}}, rs...)
 	}
 	if e.tlsUp != nil {
 		// TLS terminated, then relayed to a TLS upstream whose client settings are customised (so they do not follow
@@ -147,7 +165,35 @@ type connCase struct {
 	dynK   int  // pxd: which of the placeholder-addressed upstreams this connection names
 }
 
+// caFiles are the files through which the parent hands the harness certificate to its children.
+func caFiles() (certFile, keyFile string) {
+	root := os.Getenv("VERIF_ROOT")
+	if root == "" {
+		return "", ""
+	}
+	dir := root + "/evidence/.work/C08/tls"
+	return dir + "/ca.pem", dir + "/ca.key"
+}
+
+// makeCA (parent) creates the certificate and writes the files; it returns the certificate file's path.
+func makeCA() string {
+	cf, kf := caFiles()
+	if cf == "" {
+		return ""
+	}
+	cert, err := tlsutil.NewCert(append(append([]string{"verif.test"}, tlsUpNames...), tlsDefNames...)...)
+	if err != nil {
+		return ""
+	}
+	_ = os.MkdirAll(cf[:strings.LastIndex(cf, "/")], 0o755)
+	if os.WriteFile(cf, []byte(cert.CertPEM), 0o644) != nil || os.WriteFile(kf, []byte(cert.KeyPEM), 0o600) != nil {
+		return ""
+	}
+	return cf
+}
+
 var tlsUpNames = []string{"one.c08.test", "two.c08.test", "three.c08.test"}
+var tlsDefNames = []string{"four.c08.test", "five.c08.test", "six.c08.test"}
 
 var dynHosts = []string{"127.0.0.1", "127.0.0.2", "127.0.0.3"}
 
@@ -184,7 +230,7 @@ func (e *env) startDyn() {
 	}
 }
 
-var classNames = []string{"http", "tls", "rgx", "px0", "px1", "px2", "px3", "px4", "px5", "ovpn", "ssh", "none", "pxd", "pxd", "pxm", "tlsup"}
+var classNames = []string{"http", "tls", "rgx", "px0", "px1", "px2", "px3", "px4", "px5", "ovpn", "ssh", "none", "pxd", "pxd", "pxm", "tlsup", "tlsdef", "sub"}
 
 func (e *env) makeCase(seed int64, shard, n int, level string) *connCase {
 	r := fw.Rand(seed, "c08case", shard, n, level)
@@ -195,7 +241,7 @@ func (e *env) makeCase(seed int64, shard, n int, level string) *connCase {
 	if class == "pxd" && len(e.dyn) == 0 {
 		class = "px0"
 	}
-	if class == "tlsup" && e.tlsUp == nil {
+	if (class == "tlsup" || class == "tlsdef") && e.tlsUp == nil {
 		class = "px1"
 	}
 	id := fmt.Sprintf("c08-%s-%d-%d", level, shard, n)
@@ -213,9 +259,14 @@ func (e *env) makeCase(seed int64, shard, n int, level string) *connCase {
 		cc.wire, cc.sink = append(append([]byte(nil), e.hellos[r.Intn(len(e.hellos))]...), body...), "tls"
 	case class == "rgx":
 		cc.wire, cc.sink = append([]byte(fmt.Sprintf("RGX%d", r.Intn(10))), body...), "rgx"
-	case class == "tlsup":
+	case class == "tlsup", class == "tlsdef":
 		cc.dynK = r.Intn(len(tlsUpNames))
 		cc.wire, cc.proxy = body, true
+	case class == "sub":
+		if body[0] == 'X' {
+			body[0] = 'Y'
+		}
+		cc.wire, cc.sink = append([]byte("SUB"), body...), "sub"
 	case class == "pxm":
 		cc.wire, cc.proxy = append([]byte("PXM"), body...), true
 	case class == "pxd":
@@ -240,6 +291,21 @@ func (e *env) makeCase(seed int64, shard, n int, level string) *connCase {
 }
 
 func run(c *fw.Ctx) {
+	// The default upstream TLS settings verify the upstream's certificate against the system roots. Those are loaded
+	// when the process starts (a dependency installs fallback roots in its init), so the parent creates the harness
+	// certificate and starts every child with SSL_CERT_FILE pointing at it (see caFiles).
+	var cert0 *tlsutil.Cert
+	cerr := fmt.Errorf("no certificate from the parent")
+	if cp, kp := caFiles(); cp != "" {
+		cb, e1 := os.ReadFile(cp)
+		kb, e2 := os.ReadFile(kp)
+		if e1 == nil && e2 == nil {
+			cert0, cerr = tlsutil.FromPEM(string(cb), string(kb), append(append([]string{"verif.test"}, tlsUpNames...), tlsDefNames...)...)
+		}
+	}
+	if cerr != nil {
+		c.Note("tls classes disabled: %v", cerr)
+	}
 	hmods.Quiet(c.OutDir + "/caddyhome")
 	e := &env{}
 	for i := 0; i < 3; i++ {
@@ -251,7 +317,7 @@ func run(c *fw.Ctx) {
 		defer up.Close()
 		e.ups = append(e.ups, up)
 	}
-	if cert, err := tlsutil.NewCert(append([]string{"verif.test"}, tlsUpNames...)...); err == nil {
+	if cert, err := cert0, cerr; err == nil {
 		if err := caddy.Load([]byte(tlsutil.CaddyConfig(cert, nil)), true); err == nil {
 			e.cert = cert
 			hmods.UseActiveContext = true
@@ -408,9 +474,13 @@ func runLevel(c *fw.Ctx, e *env, level string, total, workers int) {
 				if len(segs) > 300 {
 					segs = drive.Segmentation("random", len(cc.wire), r)
 				}
-				if cc.class == "tlsup" {
+				if cc.class == "tlsup" || cc.class == "tlsdef" {
 					// a real handshake with this connection's own server name, ALPN list and version range
-					tcfg := &tls.Config{RootCAs: e.cert.Pool, ServerName: tlsUpNames[cc.dynK], NextProtos: [][]string{{"http/1.1"}, {"h2", "http/1.1"}, nil}[n%3]}
+					sni := tlsUpNames[cc.dynK]
+					if cc.class == "tlsdef" {
+						sni = tlsDefNames[cc.dynK]
+					}
+					tcfg := &tls.Config{RootCAs: e.cert.Pool, ServerName: sni, NextProtos: [][]string{{"http/1.1"}, {"h2", "http/1.1"}, nil}[n%3]}
 					if n%2 == 0 {
 						tcfg.MaxVersion = tls.VersionTLS12
 					}
@@ -457,7 +527,7 @@ func runLevel(c *fw.Ctx, e *env, level string, total, workers int) {
 	stop()
 	c.ObsMax("max_simultaneous_connections", maxActive.Load())
 
-	for _, res := range results {
+	for n, res := range results {
 		if res == nil {
 			continue
 		}
@@ -498,7 +568,16 @@ func runLevel(c *fw.Ctx, e *env, level string, total, workers int) {
 				}
 			}
 		}
-		if cc.class == "tlsup" {
+		if cc.class == "tlsdef" {
+			alpn := [][]string{{"http/1.1"}, {"h2", "http/1.1"}, nil}[n%3]
+			hdr := fmt.Sprintf("SNI=%s;ALPN=%s\n", tlsDefNames[cc.dynK], strings.Join(alpn, ","))
+			want := append([]byte(hdr), cc.wire...)
+			if i := bytes.IndexByte(res.echo, '\n'); i >= 0 && bytes.HasPrefix(res.echo, []byte("SNI=")) && !bytes.HasPrefix(res.echo, []byte(hdr)) {
+				report("upstream-handshake-depends-on-a-client", fmt.Sprintf("the upstream's default TLS client settings follow the connection's own ClientHello (%q), yet the upstream saw %q in the handshake made for this connection", strings.TrimSpace(hdr), res.echo[:i]))
+			} else if d := oracle.Diff(res.echo, want); d != "" {
+				report("proxy-echo "+classify(res.echo, want), "bytes relayed through TLS termination to a TLS echo upstream (default client settings) and back differ from this connection's stream: "+d)
+			}
+		} else if cc.class == "tlsup" {
 			want := append([]byte("SNI=;ALPN=\n"), cc.wire...)
 			if i := bytes.IndexByte(res.echo, '\n'); i >= 0 && bytes.HasPrefix(res.echo, []byte("SNI=")) && !bytes.HasPrefix(res.echo, []byte("SNI=;ALPN=\n")) {
 				report("upstream-handshake-depends-on-a-client", fmt.Sprintf("the upstream's TLS client settings are fixed by the configuration (no server name, no ALPN), yet the upstream saw %q in the handshake made for this connection (own hello: %s)", res.echo[:i], tlsUpNames[cc.dynK]))
@@ -566,6 +645,9 @@ func classGroup(class string) string {
 	}
 	if class == "tlsup" {
 		return "proxy/tls-terminated-to-tls-upstream"
+	}
+	if class == "tlsdef" {
+		return "proxy/tls-terminated-to-tls-upstream-default-settings"
 	}
 	if strings.HasPrefix(class, "px") {
 		i := int(class[2] - '0')
